@@ -331,17 +331,17 @@ def run(ctx: Ctx):
         ctx.ob("C06-O3", "R12 NO-CARDINALITY-CUTOFF", f, "no emission is skipped by a collection-size cut-off", not cuts, "", node=f.node)
     ctx.floor("_encode_* functions", n_enc, 13)
 
-    check_alldiff_coverage(ctx, "C06-O6")
-    check_id_allocation(ctx, "C06-O7")
+    ctx.step(check_alldiff_coverage, "C06-O6")
+    ctx.step(check_id_allocation, "C06-O7")
     # the encoding of a model is a function of its variables and constraints: nothing a solve (or the flattener the
     # encoder shares with the DFS back-end) leaves on the model may feed the next encoding
-    check_solve_is_read_only(ctx, "C06-O7")
-    check_same_task(ctx, "C06-O8")
-    check_partial_sum_domains(ctx, "C06-O9")
-    check_circuit_universe(ctx, "C06-O11")
-    check_constraint_table(ctx, "C06-O12")
-    check_small_semantics(ctx, "C06-O13", encoder=True, dfs=False)
-    check_cumulative_horizon(ctx, "C06-O10")
+    ctx.step(check_solve_is_read_only, "C06-O7")
+    ctx.step(check_same_task, "C06-O8")
+    ctx.step(check_partial_sum_domains, "C06-O9")
+    ctx.step(check_circuit_universe, "C06-O11")
+    ctx.step(check_constraint_table, "C06-O12")
+    ctx.step(check_small_semantics, "C06-O13", encoder=True, dfs=False)
+    ctx.step(check_cumulative_horizon, "C06-O10")
 
     # O4 dispatch totality / expression tags
     ctags, etags = produced_tags(ctx)
@@ -368,7 +368,7 @@ def run(ctx: Ctx):
         mnode = ncfg.stmt_node_containing(merge[0].iter)
         ok = ok and ncfg.dominates(mnode, ncfg.node_of(terms[0]))
     ctx.ob("C06-O4", "R11 TOTAL-DISPATCH", ne, "zero-coefficient variables are dropped from the chain after both sides are merged", ok, "a variable with coefficient 0 as first term collapses the reachable-sum table to a single literal", node=terms[0] if terms else ne.node)
-    _fixture(ctx)
+    ctx.step(_fixture)
 
     # O5 decode
     dec = ctx.func(ENCMOD, "SATEncoder.solve.decode_sat_solution")
